@@ -348,6 +348,7 @@ func runC15(r *Run) {
 	r.c15Scenario("tcp", I, T, "answers-always-after-drop", always, 1800*time.Millisecond, 350*time.Millisecond, false)
 	r.c15AfterAuthRecovery()
 	r.c15StaleVerdict()
+	r.c15StalePingFailure()
 	r.c15SlowButAnsweringAfterRecovery()
 	r.c15BusyButSilent()
 	r.c15HalfDeadButPinging()
@@ -649,6 +650,97 @@ func (r *Run) c15StaleVerdict() {
 	} else {
 		close(holdAuth)
 	}
+	close(stop)
+	s.close()
+}
+
+// c15StalePingFailure: the keepalive's other reason for a recovery - its heartbeat could not be written - is also
+// established outside the client lock. Here the write fails on a connection the peer has just dropped (its close
+// callback is held at its log line, so no recovery is running yet); the keepalive gets to act (held at its own log
+// line) only after that callback's recovery has completed. The new connection answers everything and must stay.
+func (r *Run) c15StalePingFailure() {
+	I, T := 100*time.Millisecond, 250*time.Millisecond
+	time.Sleep(I + 60*time.Millisecond)
+	hub.reset()
+	s := &session{tc: newTestClient(), v: 1, trans: "tcp"}
+	s.tcp = newTCPPeer()
+	stop := make(chan struct{})
+	var nconn int32
+	go func() {
+		for {
+			pc := s.tcp.accept(5 * time.Second)
+			if pc == nil {
+				return
+			}
+			if !pc.readHandshake(time.Second) {
+				continue
+			}
+			atomic.AddInt32(&nconn, 1)
+			go func() {
+				for {
+					select {
+					case <-stop:
+						return
+					default:
+					}
+					f := pc.readFrame(50 * time.Millisecond)
+					if f == nil {
+						if pc.closed {
+							return
+						}
+						continue
+					}
+					if f.Type == 1 && f.Cmd == 1 {
+						pc.send(respFrame(1, 1, f.Rid, 0, f.Body))
+					}
+				}
+			}()
+		}
+	}()
+	h1, h2 := make(chan struct{}), make(chan struct{})
+	s.tc.log.setHold("reconnect for conn closed", h1)
+	s.tc.log.setHold("keepalive failed to ping", h2)
+	release := func() {
+		s.tc.log.clearHold("reconnect for conn closed")
+		s.tc.log.clearHold("keepalive failed to ping")
+		select {
+		case <-h1:
+		default:
+			close(h1)
+		}
+		select {
+		case <-h2:
+		default:
+			close(h2)
+		}
+	}
+	err := s.tc.dial(s.tcp.url(), 1, client.Keepalive(I), client.KeepaliveTimeout(T), client.DialTimeout(time.Second))
+	if err == nil {
+		cs := "tcp I=100ms T=250ms: the peer drops connection 1; its close callback is held before it starts the recovery; the next heartbeat cannot be written; the keepalive acts on that only after the callback's recovery has completed; connection 2 answers everything"
+		time.Sleep(I + 30*time.Millisecond)
+		s.tcp.mu.Lock()
+		first := s.tcp.all[0]
+		s.tcp.mu.Unlock()
+		first.close()
+		if s.tc.log.waitCount("reconnect for conn closed", 1, 2*time.Second) && s.tc.log.waitCount("keepalive failed to ping", 1, 2*time.Second) {
+			s.tc.log.clearHold("reconnect for conn closed")
+			close(h1) // the close callback's recovery runs now
+			waitUntil(2*time.Second, func() bool { return s.tc.reconCount() >= 1 })
+			time.Sleep(30 * time.Millisecond)
+			s.tc.log.clearHold("keepalive failed to ping")
+			close(h2)
+			time.Sleep(600 * time.Millisecond)
+			if n := int(atomic.LoadInt32(&nconn)); n > 2 || s.tc.reconCount() > 1 {
+				r.violate(Violation{What: fmt.Sprintf("a peer that answers every heartbeat had its connection recycled by the keepalive: a failed heartbeat write on the replaced connection was acted on after the recovery had completed (%d connections instead of 2, %d reconnect callbacks)", n, s.tc.reconCount()),
+					Case: cs, Extra: strings.Join(s.tc.log.snapshot(), "\n")})
+			}
+			r.count("c15.tcp.stale-ping-failure")
+		} else {
+			r.count("c15.tcp.stale-ping-failure.not-reached")
+		}
+		r.st.Evaluations++
+	}
+	release()
 	close(stop)
 	s.close()
 }
